@@ -39,8 +39,10 @@ func (e CorpusEntry) validIn(lang string) bool {
 	return false
 }
 
-func loadCorpus() ([]CorpusEntry, error) {
-	f, err := os.Open(filepath.Join(kit.VerifDir(), "corpus", "corpus.jsonl"))
+func loadCorpus() ([]CorpusEntry, error) { return loadEntries("corpus.jsonl") }
+
+func loadEntries(name string) ([]CorpusEntry, error) {
+	f, err := os.Open(filepath.Join(kit.VerifDir(), "corpus", name))
 	if err != nil {
 		return nil, err
 	}
@@ -248,6 +250,22 @@ func buildItems(prop, tier string, root uint64) ([]*Item, error) {
 		}
 		add([]byte(e.Src), fmt.Sprintf("corpus[%d] %s", i, e.From), allLangs, valid)
 	}
+	// Line-break variants of corpus entries, recorded by cmd/harvest as valid
+	// bash programs (accepted by the parser at harvest time AND by "bash -n").
+	// The recorded validity is independent of the parser under test.
+	if prop == "C10" || prop == "C08" {
+		vs, err := loadEntries("variants.jsonl")
+		if err != nil {
+			return nil, err
+		}
+		vr := kit.NewRand(kit.RunSeed(root, prop+"/variants", 0))
+		for i, e := range vs {
+			if prop == "C08" && tier != "thorough" && !vr.Chance(1, 10) {
+				continue
+			}
+			add([]byte(e.Src), fmt.Sprintf("variants[%d] %s", i, e.From), []string{"bash"}, map[string]bool{"bash": true})
+		}
+	}
 	// hand-written inputs for places the corpus and the generator are thin
 	// on: line continuations inside parameter expansions, arithmetic and
 	// test clauses, CRLF input, NUL bytes, multi-byte runes at line ends
@@ -281,6 +299,71 @@ func buildItems(prop, tier string, root uint64) ([]*Item, error) {
 			}
 			add([]byte(src), origin, []string{lang}, nil)
 		}
+	}
+	// Line-break variants: a space of a valid program replaced by a newline,
+	// kept when the program still parses. They put line breaks wherever the
+	// grammar allows them (inside [[ ]], $(( )), array literals, after
+	// operators, ...), which is where line-at-a-time feeding and
+	// line-boundary cuts meet code that the usual one-statement-per-line
+	// inputs never reach.
+	nlr := kit.NewRand(kit.RunSeed(root, prop+"/nl", 0))
+	nlWant := 600
+	if tier == "thorough" {
+		nlWant = 12000
+	}
+	nlBase := len(items)
+	if prop == "C10" {
+		// C10 is cheap per item: every single space of every short valid
+		// input, exhaustively
+		for bi := 0; bi < nlBase; bi++ {
+			src := items[bi]
+			if len(src.Src) == 0 || len(src.Src) > 300 || len(src.Langs) == 0 {
+				continue
+			}
+			lang := src.Langs[bi%len(src.Langs)]
+			if parseOneShot(Cfg{Lang: lang}, src.Src).Err != nil {
+				continue
+			}
+			for j, b := range src.Src {
+				if b != ' ' && b != '\t' {
+					continue
+				}
+				v := append([]byte{}, src.Src...)
+				v[j] = '\n'
+				if parseOneShot(Cfg{Lang: lang}, v).Err != nil {
+					continue
+				}
+				add(v, fmt.Sprintf("line break at %d of %s", j, src.Origin), []string{lang}, map[string]bool{lang: true})
+			}
+		}
+		nlWant = 0
+	}
+	for tries := 0; tries < nlWant*6 && len(items)-nlBase < nlWant && nlBase > 0; tries++ {
+		src := items[nlr.Intn(nlBase)]
+		if len(src.Src) == 0 || len(src.Src) > 400 || len(src.Langs) == 0 {
+			continue
+		}
+		lang := src.Langs[nlr.Intn(len(src.Langs))]
+		if parseOneShot(Cfg{Lang: lang}, src.Src).Err != nil {
+			continue
+		}
+		var spaces []int
+		for j, b := range src.Src {
+			if b == ' ' || b == '\t' {
+				spaces = append(spaces, j)
+			}
+		}
+		if len(spaces) == 0 {
+			continue
+		}
+		v := append([]byte{}, src.Src...)
+		for n := nlr.Range(1, 2); n > 0; n-- {
+			v[spaces[nlr.Intn(len(spaces))]] = '\n'
+		}
+		if parseOneShot(Cfg{Lang: lang}, v).Err != nil {
+			continue
+		}
+		add(v, "line-break variant of "+src.Origin, []string{lang}, map[string]bool{lang: true})
 	}
 	// Inputs padded so that their interesting bytes straddle the parser's
 	// internal 1024-byte buffer boundary.
